@@ -9,6 +9,16 @@ ROOT = pathlib.Path(__file__).resolve().parent.parent
 
 # id -> (technique, level text, level_note, design_ref)
 CHECKS = {
+    "C03": (
+        "conformance monitor: jsonschema against the published strict schema + index-sanity + port-address oracle computed from Hugr.links() and the wire attributes of the emitted ops",
+        "Every emitted HUGR document (programs, programs+histories with holes, order-link-heavy cases, planted attribute-rich ops), package "
+        "document and generated extension document is validated against the published strict JSON schema (sampled 1/4 for HUGRs in quick), "
+        "checked for root/parent/edge index sanity, and its edge multiset is compared with the one computed independently from links() and "
+        "the emitted ops' signatures (value port k at k, static input after the value inputs, order edge on the next port).",
+        "Trusted: the published schema file, vf/oracles/wire.py port tables. One index-reuse mechanism is an open known finding. "
+        "Not covered: what serde would reject although schema-valid (e.g. u8 overflow of UnitSum.size).",
+        "DESIGN.md §3 C03",
+    ),
     "C02": (
         "round-trip differential: JSON fixed point + observable-structure equality through the public query API, on builder programs composed with mutation histories, planted attribute-rich ops and arbitrary JSON metadata",
         "For every generated HUGR (four strata: programs, programs+mutation history, history-only with holes and index reuse, planted "
